@@ -491,7 +491,17 @@ int main(int argc, char **argv) {
         int enc = atoi(f[5].c_str()), dir = atoi(f[6].c_str());
         gr_face *face = get_face(f[2], opts, cb);
         if (!face) { printf("%s NOFACE\n", id.c_str()); fflush(stdout); continue; }
-        gr_font *font = f[7] == "-" ? 0 : gr_make_font((float)atof(f[7].c_str()), face);
+        // <ppm>: gr_make_font; <ppm>n: gr_make_font_with_ops with an application handle and no callbacks; <ppm>a: gr_make_font_with_advance_fn
+        // with a handle and a NULL function -- all three are unhinted fonts
+        static char font_handle[256];
+        gr_font *font = 0;
+        if (f[7] != "-") {
+            const float ppmv = (float)atof(f[7].c_str());
+            const char suf = f[7][f[7].size() - 1];
+            if (suf == 'n') { gr_font_ops fops = { sizeof(gr_font_ops), 0, 0 }; font = gr_make_font_with_ops(ppmv, font_handle, &fops, face); }
+            else if (suf == 'a') font = gr_make_font_with_advance_fn(ppmv, font_handle, 0, face);
+            else font = gr_make_font(ppmv, face);
+        }
         gr_feature_val *fv = 0;
         if (f[8] != "-") {
             fv = gr_face_featureval_for_lang(face, 0);
